@@ -112,6 +112,58 @@ def conv_saturate(rep, prog, rule):
     rep.floor(rule, "destination stores in SIMD convolution kernels", n, SINK_FLOOR.get(rep.cfg, 20))
 
 
+ACCUM_RE = re.compile(r"(madd|maddubs|_mul_ep|_mullo_|_mulhi_|mulhrs|vmlal|vmull|vmla|extmul|dot_|"
+                      r"i32x4_mul|i64x2_mul)")
+LOGICAL_SHR_RE = re.compile(r"(^|::)(_mm(256|512)?_(mask_)?srl(i|v)?_epi(16|32|64)|"
+                            r"vshrq?_n_u(8|16|32|64)|vrshrq?_n_u(8|16|32|64)|"
+                            r"u(8x16|16x8|32x4|64x2)_shr)$")
+ARITH_SHR_RE = re.compile(r"(^|::)(_mm(256|512)?_(mask_)?sra(i|v)?_epi(16|32|64)|"
+                          r"vshrq?_n_s(8|16|32|64)|vrshrq?_n_s(8|16|32|64)|"
+                          r"i(8x16|16x8|32x4|64x2)_shr)$")
+assert LOGICAL_SHR_RE.search("core::core_arch::x86::sse2::_mm_srl_epi64")
+assert LOGICAL_SHR_RE.search("_mm256_srli_epi32") and not LOGICAL_SHR_RE.search("_mm_srli_si128")
+assert ARITH_SHR_RE.search("_mm_srai_epi32") and ARITH_SHR_RE.search("vshrq_n_s64")
+
+
+def arith_shift(rep, prog, rule, floor=10):
+    rep.rule(rule, "in the SIMD convolution kernels a right shift applied to a value that was "
+             "accumulated from products (madd / mul / mlal ... , traced flow-insensitively through "
+             "locals, arrays and helper calls) is ARITHMETIC (srai / sra / vshr_n_s / iNxM_shr): the "
+             "sums are signed -- kernels with negative lobes undershoot next to an edge -- and a "
+             "logical shift (srl / srli / vshr_n_u / uNxM_shr) turns a small negative sum into a huge "
+             "positive one that the following unsigned saturation clips to the MAXIMUM instead of 0. "
+             "(`a negative value keeps its sign bit in the low half` only holds for precision <= 32)")
+    from ..props.c14 import _taint
+    n = 0
+    for f, ty, be in kernels(prog):
+        for g in [f] + f.closures():
+            seeds = set()
+            for c in g.calls():
+                if ACCUM_RE.search(c.name or "") and c.dest:
+                    seeds.add(c.dest[0])
+            if not seeds:
+                continue
+            tset, op_t = _taint(prog, g, seeds)
+            for c in g.calls():
+                nm = c.name or ""
+                lg, ar = LOGICAL_SHR_RE.search(nm), ARITH_SHR_RE.search(nm)
+                if not (lg or ar) or not c.args:
+                    continue
+                if not op_t(c.args[0]):
+                    continue
+                n += 1
+                rep.touch(g)
+                key = "%s|%s" % (g.name, short(nm))
+                if ar:
+                    rep.ok(rule, key, c.at, "arithmetic shift of the accumulator")
+                else:
+                    rep.bad(rule, key + "|logical", c.at,
+                            "%s shifts an accumulated (signed) sum with the logical %s: a negative sum "
+                            "becomes a large positive value and is saturated to the maximum of the "
+                            "component range instead of 0" % (g.name, short(nm)))
+    rep.floor(rule, "right shifts of accumulators in SIMD convolution kernels", n, floor)
+
+
 def zero_extend(rep, prog, rule):
     rep.rule(rule, "pixel data is never sign-extended on its way to the multiply-add: no "
              "sign-extending widening intrinsic is applied in a convolution or alpha kernel, and "
